@@ -240,6 +240,8 @@ defop("permute", _permute, ["I", "I", "I", "I", "I"], weight=0.15)
 
 def _ggh(ns, l):
     import pysnark.ggh_hash as gh
+    if gh.PRIME != ns.rec.P:
+        raise TypeError("ggh_hash was bound to another field at import")
     # homogeneous list of secret LinCombs (examples/hash.py)
     return gh.ggh_hash([x.lc if isinstance(x, ns.bo.LinCombBool) else x for x in l])
 
